@@ -394,6 +394,62 @@ func boundaryConversations(all map[string][]step) []conversation {
 	return out
 }
 
+// refusedConversations: every request of every valid conversation once refused by the application
+// handler (error status, no error - the connection and the session stay), and once repeated with
+// the repetition refused (e.g. a second PLAY while playing that the application rejects); the rest
+// of the conversation follows as if nothing had happened.
+func refusedConversations(all map[string][]step) []conversation {
+	var out []conversation
+	names := make([]string, 0, len(all))
+	for k := range all {
+		names = append(names, k)
+	}
+	sortStrings(names)
+	for _, name := range names {
+		base := all[name]
+		for i, s := range base {
+			if s.Kind != "req" {
+				continue
+			}
+			switch s.Method {
+			case "DESCRIBE", "ANNOUNCE", "SETUP", "PLAY", "RECORD", "PAUSE":
+			default:
+				continue
+			}
+			for _, mode := range []string{"refused", "repeated-refused"} {
+				for _, code := range []string{"403", "503"} {
+					c := conversation{Seed: name, Muts: []string{"handler-" + mode + ":" + s.Method + ":" + code}, TruncateAt: -1}
+					for j, st := range base {
+						st.Header = append([][2]string(nil), st.Header...)
+						if j == i {
+							if mode == "repeated-refused" {
+								c.Steps = append(c.Steps, st)
+								st.Header = append([][2]string(nil), st.Header...)
+								if st.Method == "SETUP" || st.Method == "ANNOUNCE" {
+									// the repetition needs the session id the first one returned
+									hasSess := false
+									for _, h := range st.Header {
+										if h[0] == "Session" {
+											hasSess = true
+										}
+									}
+									if !hasSess {
+										st.Header = append(st.Header, [2]string{"Session", "{sess}"})
+									}
+								}
+							}
+							st.Header = append(st.Header, [2]string{"X-Verif-Refuse", code})
+						}
+						c.Steps = append(c.Steps, st)
+					}
+					out = append(out, c)
+				}
+			}
+		}
+	}
+	return out
+}
+
 func mutTransport(r *rand.Rand, t string) string {
 	switch r.Intn(12) {
 	case 0:
